@@ -21,6 +21,7 @@ Binding to the code
 import itertools
 import json
 import random
+import time
 import warnings
 
 import numpy as np
@@ -247,6 +248,12 @@ def run(tier, seed):
     quick = tier == "quick"
     rng = random.Random(7000 + seed)
     V = Collector()
+    cpu = {"t": time.process_time()}
+    phase = {}
+
+    def lap(name):
+        phase[name] = round(time.process_time() - cpu["t"], 1)
+        cpu["t"] = time.process_time()
     counts = {"gate_rejected": {}, "gate_failed": {}, "tableau_equal_model": 0, "tableau_other_generators": 0, "tableau_pairing_ok": 0,
               "tableau_validated": 0, "tableau_truncated": 0, "statevector_compared": 0, "statevector_phase_equal": 0,
               "exp_pm1": 0, "exp_zero": 0, "device_executions": 0, "wide_cases": 0, "by_family": {}}
@@ -288,8 +295,9 @@ def run(tier, seed):
             c["rows"], c["m"] = tableau_rows(tab, n, None if (standard or c["devwires"]) else tape_perm)
             if c["rows"] is None:
                 V.add("state:tableau=True:malformed", f"tableau of shape {np.shape(tab)} for {n} wires: {describe(c)}", {"case": c["ops"]})
-            if c["devwires"] and not standard:
-                c["alt"], _ = tableau_rows(tab, n, tape_perm)
+            c["tape_perm"] = tape_perm
+            if c["devwires"] and tape_perm != list(range(n)) and (not standard or len(order) < n):
+                c["alt"], _ = tableau_rows(tab, n, tape_perm)      # the same tableau read in the tape's order of first use
         except Exception as e:  # noqa: BLE001
             c["exc"] = e
             return False
@@ -339,6 +347,7 @@ def run(tier, seed):
                 V.add(f"gate:{gname(gate)}:exception:{type(e).__name__}",
                       f"Clifford gate {gname(gate)} cannot be executed: {type(e).__name__}: {e} (circuit H(0) S(0) CNOT(0,1) H(2) CZ(2,1) {gname(gate)} H(1), qp.state())",
                       {"gate": gate})
+    lap("single")
     if len(working1) < 4 or len(working2) < 2:
         raise lib.MachineryError(f"too few gates execute on default.clifford to build circuits: {working1} {working2}")
 
@@ -371,6 +380,7 @@ def run(tier, seed):
             if not exec_case(c, shared):
                 V.add(f"exception:{type(c['exc']).__name__}", f"{type(c['exc']).__name__}: {c['exc']} on {describe(c)}", {"ops": c["ops"]})
                 cases.pop()
+    lap("pairs")
     # ------------------------------------------------------------ seeded random circuits
     n_small, n_wide, n_idle = (150, 40, 8) if quick else (2500, 500, 40)
     for i in range(n_small):
@@ -401,6 +411,7 @@ def run(tier, seed):
             V.add(f"idle-trailing-wire:exception:{type(c['exc']).__name__}", f"{type(c['exc']).__name__}: {c['exc']} on {describe(c)}", {"ops": c["ops"]})
             cases.pop()
 
+    lap("random+wide+idle")
     # ------------------------------------------------------------ TLC: both models + validation of the recorded tableaus
     tcases, owner = [], []
     for ci, c in enumerate(cases):
@@ -493,13 +504,19 @@ def run(tier, seed):
             got = np.asarray(o)
             if kind_m == "state":
                 counts["statevector_compared"] += 1
-                same = got.shape == exp.shape and abs(abs(np.vdot(exp, got)) - 1.0) < 1e-5 and abs(np.linalg.norm(got) - 1) < 1e-5
+                def in_tape_order(v):
+                    # position j of the tape's order of first use holds the wire at position tape_perm[j]
+                    return np.transpose(v.reshape([2] * n), c["tape_perm"]).reshape(-1)
+                if not c["devwires"] and tagw == "custom-labels":
+                    exp = in_tape_order(exp)       # without device wires the state is indexed in the tape's wire order (PennyLane convention)
+                eqs = lambda a, b: a.shape == b.shape and abs(abs(np.vdot(b, a)) - 1.0) < 1e-5 and abs(np.linalg.norm(a) - 1) < 1e-5
+                same = eqs(got, exp)
                 counts["statevector_phase_equal"] += bool(same and np.allclose(got, exp, atol=1e-5))
                 if not same:
                     good_case = False
                     sub = "shape" if got.shape != exp.shape else "mismatch"
-                    if sub == "mismatch" and c["devwires"] and tagw == "custom-labels":
-                        sub = "mismatch-custom-labels-device-wires"
+                    if sub == "mismatch" and c["devwires"] and eqs(got, in_tape_order(exp)):
+                        sub = "device-wire-order-ignored"
                     V.add(f"{tag}{idle}:{sub}", f"state vector {np.round(got, 4).tolist()} vs exact {np.round(exp, 4).tolist()} (up to a global phase) on {describe(c)}",
                           {"ops": c["ops"], "labels": c["labels"]})
                 continue
@@ -520,9 +537,12 @@ def run(tier, seed):
         raise lib.MachineryError("negative control accepted")
 
     # ------------------------------------------------------------ non-Clifford / unsupported input: rejected or exact
+    lap("compare")
     stats2, nc = noncliff(V, counts, seed)
+    lap("nonclifford")
     # ------------------------------------------------------------ samples (statistical, partial)
     n_stat = sampling(V, cases, res, owner, first_neg, rng, seed, quick)
+    lap("sampling")
 
     if counts["exp_pm1"] < 50 or counts["tableau_validated"] < 100 or counts["wide_cases"] < 10:
         raise lib.MachineryError(f"vacuous: {counts}")
@@ -534,7 +554,7 @@ def run(tier, seed):
                    "device wires; non-trivial = distinct circuit of >= 2 gates whose every compared output (tableau, expectations, variances, "
                    "Hamiltonians, probabilities, projectors, state vector) agreed",
            "samples": samples, "exhaustive": True, "model_self_checks_ok": n_self, "negative_controls_rejected": nneg + 1,
-           "statistical_tests": n_stat, "nonclifford_cases": nc, "tlc_wall_s": round(tr.wall_s, 1), "ring_level_M": M, **counts,
+           "statistical_tests": n_stat, "nonclifford_cases": nc, "tlc_wall_s": round(tr.wall_s, 1), "python_cpu_s_by_phase": phase, "ring_level_M": M, **counts,
            "violation_counts_by_key": V.seen}
     return CheckResult(coverage=cov, violations=V.viol, assumptions=[
         "exact comparison of tableaus (integers, decided by TLC); expectation values at 1e-8 (tableau=True) / 2e-6 (tableau=False: stim returns a "
